@@ -602,6 +602,33 @@ add({"name": "gz_inflate_loop", "file": "dfs/img_gzfile.cc",
                (r"\bdo\b(\s*\{\s*stream\.next_out)", r"do GZ_INNER_CONTRACT\1", 1)],
      "dropped": ["static_asserts on buffer sizes"]})
 
+# ---- img_sdf.cc (C04 "unformatted slots are reported as unformatted" / C16): ViewFile::connect_drives -----------------
+add({"name": "ViewFile_connect_drives", "file": "dfs/img_sdf.cc",
+     "anchor": r"bool ViewFile::connect_drives\(DFS::StorageConfiguration\* storage,\s*DFS::DriveAllocation how,\s*std::string&\)",
+     "sig": "static bool ViewFile_connect_drives(struct ViewFileM *self, int how)",
+     "pre": "#define view (h_views[vi_])\n", "post": "#undef view\n",
+     "rules": [(r"std::vector<std::optional<DFS::DriveConfig>> drives;", "/* drives: every emplace_back is monitored */", 1),
+               (r"for \(auto& view : views_\)", "for (size_t vi_ = 0; vi_ < self->views_n; ++vi_) VIEWS_LOOP_CONTRACT", 1),
+               (r"std::optional<Format> fmt;", "struct opt_format fmt; fmt.has = 0; fmt.val = 0;", ">=0"),
+               (r"std::optional<Format> fmt =\s*identify_file_system\(view,[^;]*\);", "struct opt_format fmt = identify_model(&view);", ">=0"),
+               (r"fmt = identify_file_system\(view,[^;]*\);", "fmt = identify_model(&view);", ">=0"),
+               (r"std::string cause;", "/* cause text dropped */", ">=0"),
+               (r"view\.is_formatted\(\)", "view_is_formatted(&view)", ">=0"),
+               (r"DFS::DriveConfig dc\(fmt, &view\);", "struct DriveConfigM dc; dc.fmt = fmt; dc.vw = &view;", 1),
+               (r"drives\.emplace_back\(dc\);", "drives_emplace_back(&dc);", 1),
+               (r"return storage->connect_drives\(drives, how\);", "return storage_connect_drives_model(how);", 1)],
+     "dropped": ["the cause string of identify_file_system"]})
+
+# ---- fsp.cc (C15: `type`/`list`/`dump` find a file by :drive.dir.name): the directory/name split of parse_filename --------
+add({"name": "parse_dir_and_name", "file": "dfs/fsp.cc",
+     "anchor": r"if \(name\.size\(\) [<>=!]+ \w+\)\s*\{\s*if \(name\[1\] == '\.'\)", "region_end": r"std::swap\(result, \*p\);",
+     "sig": "static void parse_dir_and_name(struct cstr name, char *result_dir, struct cstr *result_name)",
+     "rules": [(r"name\.size\(\)", "name.n", ">=1"), (r"name\[(\w+)\]", r"CSTR_AT(&name, \1)", ">=1"),
+               (r"result\.dir = ", "*result_dir = ", ">=0"),
+               (r"result\.name = std::string\(name, (\w+)\);", r"*result_name = cstr_substr(name, \1);", ">=0"),
+               (r"result\.name = name;", "*result_name = name;", ">=0")],
+     "dropped": ["the drive prefix (VolumeSelector::parse) handled before this region"]})
+
 # ---- driveselector.cc (C07 command-line clause): SurfaceSelector::coerce / parse: no exception escapes parse ---------------
 THROW_STD = (r"throw std::(\w+)\((?:[^()]|\([^()]*\))*\);", r"{ VERIF_THROW(std_\1, 0); return 0; }")
 add({"name": "SurfaceSelector_coerce_long", "file": DS, "anchor": r"unsigned int SurfaceSelector::coerce\(long int ld\)",
